@@ -232,6 +232,24 @@ func reportRankBuilders(w *World, r *Report, fns map[string]*ssa.Function, build
 				}
 			}
 		}
+		// every exit hands back the index that was built: an early `return nil` for an absent (nil) bitmap drops the
+		// entries the property fixes also for the empty bitmap (the first entry, the grand total)
+		if bad == "" {
+			for _, ret := range returnsOf(fn) {
+				for _, src := range resolvePhi(ret.Results[0]) {
+					switch x := src.(type) {
+					case *ssa.MakeSlice:
+					case *ssa.Call:
+						if b, ok := x.Common().Value.(*ssa.Builtin); !ok || b.Name() != "append" {
+							bad = "the return at " + w.InstrPos(ret) + " hands back " + fmtVal(w, src) + ", not the index that was built"
+						}
+					case *ssa.Slice:
+					default:
+						bad = "the return at " + w.InstrPos(ret) + " hands back " + fmtVal(w, src) + ", not the index that was built: the empty bitmap (nil included) has an index too (entry 0, the grand total)"
+					}
+				}
+			}
+		}
 		facts := []string{fmt.Sprintf("%d entry writes, all of the loop-head accumulator; stride %d words; offsets counted %v", len(entries), ai.Step, keysOf(ai.Offsets))}
 		if bad != "" {
 			r.Bad("R-EXCL", bn, w.Pos(fn.Pos()), bad, facts...)
